@@ -26,6 +26,10 @@ def mc_c14(results):
             'state_graph_note': 'states = finite float/double bit patterns visited; transitions = nextFloat/prevFloat (and n-step chains) executed on the implementation; every transition is compared with the reference model, so validated == transitions'}
 
 PROPS = {
+ 'C06': dict(src='drivers/c06.cpp', level='exploration',
+   technique='exhaustive enumeration of every code of every field of every pack format (all 2^2..2^16 codes per field, three companion patterns) and of structured float lattices (all 2^32 floats for the scalar pack functions, thorough) through pack/unpack, against a per-format reference decoder',
+   text='37 formats described once (field offset/width/kind) and explored generically. Code sweep: every code of every <=16-bit field (complete) - decode value and component order, re-pack of canonical codes, unpack.pack.unpack idempotence, Inf/NaN codes, monotone decoding. Real sweep: every float of F32_EDGE + a grid around every quantisation step (quick) / all 2^32 floats for single-field formats (thorough) in every field: half-step (normalised) or one-mantissa-step (small float, shared exponent) accuracy, clamping at both range ends, monotonicity, no cross-talk between fields. F3x9_E1x5: all 2^32 words in the thorough tier.',
+   rule='codes: ALL_CODES = {format} x {field} x {0..2^w-1} x {companions 0, all-ones, tag}; 32-bit integer fields over INT32_EDGE. reals: {format} x {field} x (STEP_GRID + F32_EDGE), thorough adds F32_ALL for single-field formats and every 257th float for the others. NaN inputs and non-real formats are skipped in the real sweep (counted trivial).'),
  'C14': dict(src='drivers/c14.cpp', level='model_checking', mc=mc_c14,
    technique='explicit-state exploration of the float successor graph: every state (all 2^32 float patterns in the thorough tier) has its nextFloat and prevFloat transitions executed on the implementation and checked against integer arithmetic on the IEEE total order',
    text='States are float bit patterns, transitions are nextFloat/prevFloat; each transition is executed on the real code and validated against the reference model (ordered-integer successor), with the invariants prev(next(x))=x, strict monotonicity and distance 1. Thorough visits all 2^32 float states (2^33 transitions); n-step overloads, floatDistance and ULP/epsilon comparisons (scalar, vec1-4, six matrix shapes, quaternion) are explored on lattices that contain every binade edge, both zeros, subnormals and chains crossing zero.',
